@@ -100,7 +100,12 @@ type dxEnd struct {
 	inOp    atomic.Bool
 }
 
-const gateLimit = 10 * time.Second
+// A Write is normally held for microseconds (until the Flush that queued it
+// returns).  On a tree where Stats.Flushed does not follow the Writes the wait
+// times out; after the first time-out the limit is short.
+var gateLimit atomic.Int64
+
+func init() { gateLimit.Store(int64(3 * time.Second)) }
 
 func (e *dxEnd) Write(p []byte) (int, error) {
 	e.mu.Lock()
@@ -116,7 +121,8 @@ func (e *dxEnd) Write(p []byte) (int, error) {
 		} else {
 			time.Sleep(5 * time.Microsecond)
 		}
-		if i%1024 == 1023 && time.Since(start) > gateLimit {
+		if i%256 == 255 && time.Since(start) > time.Duration(gateLimit.Load()) {
+			gateLimit.Store(int64(50 * time.Millisecond))
 			e.mu.Lock()
 			e.gateTO = true
 			e.mu.Unlock()
@@ -264,6 +270,7 @@ type dxSession struct {
 	baseP   int
 	baseT   int
 	stalled bool
+	blind   bool
 }
 
 func (s *dxSession) header() string {
@@ -296,6 +303,12 @@ func (s *dxSession) fail(sig string, extra map[string]any) {
 // that is not part of this session's base is parked in its channel receive or
 // has exited, i.e. has finished everything queued so far.
 func (s *dxSession) quiesce() bool {
+	if s.blind {
+		// the writer goroutines cannot be identified in the goroutine dump
+		// (renamed?): give them time instead
+		time.Sleep(3 * time.Millisecond)
+		return true
+	}
 	last := progress.Load()
 	lastChange := time.Now()
 	for i := 0; ; i++ {
@@ -340,6 +353,10 @@ func newDxSession(o *hxlib.Out, idx int, class string, fragA, fragB fragSpec, gr
 	b.conn = p2p.NewConn(epB)
 	epB.conn = b.conn
 	s.sides = [2]*dxSide{a, b}
+	if _, t := writerCounts(); t-s.baseT < 2 {
+		s.blind = true
+		o.Count("dx_writer_goroutines_not_identified")
+	}
 	s.quiesce()
 	return s
 }
